@@ -101,14 +101,16 @@ var c12perms = []c12perm{
 	{"dot-leading", map[string]string{".arch": "dotval", "arch": "plainarch", "os": "{{matrix}}"}},
 	{"dash", map[string]string{"-": "dash", ".": "dot", "os.x": "osx"}},
 	{"self-reference", map[string]string{"os": "<{{matrix.os}}>", "arch": "{{matrix.os}}{{matrix.arch}}"}},
+	{"seven-dimensions", map[string]string{"os": "linux", "arch": "amd", "d3": "3", "d4": "4", "d5": "5", "d6": "6", "d7": "7"}},
 }
 
 // positions joined with "+" carry the string at both places (a key and a value of one mapping)
-var c12positions = []string{"extra-nested-key+extra-nested-value", "extra-key+extra-value", "plugin-config-key+plugin-config-value", "extra-nested-value", "command", "label", "plugin-source", "plugin-config-key", "plugin-config-value", "plugin-config-nested", "env-value", "extra-key", "extra-value", "extra-nested-key", "extra-list",
+var c12positions = []string{"plugin-smap-key", "plugin-smap-value", "extra-smap-key+extra-smap-value", "extra-nested-key+extra-nested-value", "extra-key+extra-value", "plugin-config-key+plugin-config-value", "extra-nested-value", "command", "label", "plugin-source", "plugin-config-key", "plugin-config-value", "plugin-config-nested", "env-value", "extra-key", "extra-value", "extra-nested-key", "extra-list",
 	"env-name", "key", "matrix-setup-value", "matrix-adjust-with", "matrix-extra", "signature-value", "signature-field", "cache-path"}
 
 var c12inScope = map[string]bool{"command": true, "label": true, "plugin-source": true, "plugin-config-key": true, "plugin-config-value": true, "plugin-config-nested": true,
 	"env-value": true, "extra-key": true, "extra-value": true, "extra-nested-key": true, "extra-list": true, "extra-nested-value": true,
+	"plugin-smap-key": true, "plugin-smap-value": true, "extra-smap-key+extra-smap-value": true,
 	"extra-nested-key+extra-nested-value": true, "extra-key+extra-value": true, "plugin-config-key+plugin-config-value": true}
 
 type c12case struct {
@@ -142,6 +144,8 @@ func c12step(c c12case) *pipeline.CommandStep {
 			{Source: "./" + at("plugin-source", "src"), Config: map[string]any{
 				at("plugin-config-key", "ck"): at("plugin-config-value", "cv"),
 				"n":                           []any{map[string]any{"deep": at("plugin-config-nested", "dv")}, 1, nil},
+				// containers typed map[string]string (what a program builds; the parser never does)
+				"smap": map[string]string{at("plugin-smap-key", "sk"): at("plugin-smap-value", "sv"), "sk2": "sv2"},
 			}},
 			{Source: "./second", Config: nil},
 		},
@@ -157,6 +161,7 @@ func c12step(c c12case) *pipeline.CommandStep {
 			at("extra-key", "ek"): at("extra-value", "ev"),
 			"nested":              map[string]any{at("extra-nested-key", "nk"): at("extra-nested-value", "nv"), "nk2": "nv2"},
 			"list":                []any{at("extra-list", "li"), 2},
+			"smap":                []any{map[string]string{at("extra-smap-key", "ek2"): at("extra-smap-value", "ev2")}},
 		},
 	}
 	return st
@@ -417,8 +422,8 @@ func init() {
 	register(&report.Check{
 		ID: "C12",
 		Rule: "every concatenation of <=3 (quick) / <=4 (thorough) pieces over a 25-piece alphabet (tokens with and without inner whitespace, dotted / dashed / dot-leading dimension names, unknown dimensions, " +
-			"near misses, brace fragments, plain text) x 23 positions of a command step (the same string at a key and a value of one mapping for three mappings; 12 single positions in scope: command, label, plugin source, config keys/values/nested, env values, unknown-field keys/values/nested/list; " +
-			"8 out of scope: env names, key, matrix setup/with/extra, signature value/field, cache) x 6 permutations (anonymous, named with . - _, token-shaped values that name each other, dot-leading names, dash/dot names, values that contain their own token) x 2 representations of the step (built by hand with plain Go maps; its JSON decoded by CommandStep.UnmarshalJSON, " +
+			"near misses, brace fragments, plain text) x 26 positions of a command step (the same string at a key and a value of one mapping for three mappings; 12 single positions in scope: command, label, plugin source, config keys/values/nested, env values, unknown-field keys/values/nested/list; " +
+			"8 out of scope: env names, key, matrix setup/with/extra, signature value/field, cache) x 7 permutations (seven dimensions, anonymous, named with . - _, token-shaped values that name each other, dot-leading names, dash/dot names, values that contain their own token) x 2 representations of the step (built by hand with plain Go maps; its JSON decoded by CommandStep.UnmarshalJSON, " +
 			"whose nested unknown mappings are ordered maps - quick: strings of <=2 pieces); " +
 			"InterpolateMatrixPermutation on the real code vs. a hand-written single-pass scanner mapped over the step's JSON before the call; unknown dimension in scope => error; empty permutation => deep " +
 			"snapshot unchanged; every iteration order of the library's map loops for one-piece strings at map-backed positions. Non-trivial = the string contains a token (replaced or unknown).",
